@@ -124,6 +124,23 @@ func (h *H) releaseActor(actor string) {
 	}
 }
 
+// releaseAll switches the gates off and keeps releasing whatever still arrives at one (an actor
+// may have passed the gating test just before): the background actors run freely from now on.
+func (h *H) releaseAll() {
+	atomic.StoreInt32(&h.gating, 0)
+	go func() {
+		for i := 0; i < 200000; i++ {
+			h.drainArrivals()
+			h.releaseActor("merger")
+			h.releaseActor("persister")
+			time.Sleep(200 * time.Microsecond)
+			if d := moss.VerifDumpCollection(h.coll); d == nil || d.Closed {
+				return
+			}
+		}
+	}()
+}
+
 func (h *H) drainArrivals() {
 	for {
 		select {
